@@ -1,4 +1,4 @@
-CONSTANTS MaxIn = 2 MaxOut = 2
+CONSTANTS MaxIn = 3 MaxOut = 3
 INIT RInit
 NEXT RNext
 CHECK_DEADLOCK FALSE
